@@ -1,8 +1,8 @@
 // C38 correspondence harness (injected into package dot/rpc/modules by `go test -overlay`).
 //
 // A real InmemoryStorageState (state.NewStorageState over state.NewTries + a genesis BlockState on an
-// in-memory database) holding an InMemoryTrie built from the case's entries sits behind the
-// StateModule; no mock is involved.
+// in-memory database) sits behind the StateModule; no mock is involved. The case's trie is the state of
+// block 1 (queried by state root resp. block hash); the best block (genesis) holds a decoy state.
 //
 // input:   rpc <ver:0|1> <entries> <query> <query> ...
 //   <entries> := <key>=<value>,... | ()            (Put in the given order; keys/values hex, "-" = empty)
@@ -63,11 +63,26 @@ func c38Module(ver string, entries string) (sm *StateModule, root common.Hash, b
 		return
 	}
 	closer = func() { _ = db.Close() }
-	tries := state.NewTries()
-	tries.SetTrie(tr)
-	header := types.NewHeader(common.Hash{}, root, trie.EmptyHash, 0, types.NewDigest())
-	bs, err := state.NewBlockStateFromGenesis(db, tries, header, c38Telemetry{})
+	// the best block (genesis) holds a decoy state, so that a query that ignores the requested
+	// block/state root and falls back to the best block is observable
+	decoy := inmemory.NewEmptyTrie()
+	if err = decoy.Put([]byte{0xde, 0xca, 0xfb, 0xad}, []byte{0x01}); err != nil {
+		return
+	}
+	decoyRoot, err := decoy.Hash()
 	if err != nil {
+		return
+	}
+	tries := state.NewTries()
+	tries.SetTrie(decoy)
+	tries.SetTrie(tr)
+	genesis := types.NewHeader(common.Hash{}, decoyRoot, trie.EmptyHash, 0, types.NewDigest())
+	bs, err := state.NewBlockStateFromGenesis(db, tries, genesis, c38Telemetry{})
+	if err != nil {
+		return
+	}
+	header := types.NewHeader(genesis.Hash(), root, trie.EmptyHash, 1, types.NewDigest())
+	if err = bs.SetHeader(header); err != nil {
 		return
 	}
 	ss, err := state.NewStorageState(db, bs, tries)
